@@ -312,7 +312,7 @@ type psWorld struct {
 	// hmu orders harness state accesses for the race detector: the event loop holds it except while it lets
 	// other goroutines run; callbacks from goroutines of the code under test take it (only one goroutine runs
 	// at a time by construction, but the detector does not see synctest's quiescence as synchronisation)
-	hmu sync.Mutex
+	hmu     sync.Mutex
 	r       *core.Run
 	s       *core.Src
 	sch     *core.Sched
